@@ -406,6 +406,9 @@ class Trough(Labware):
         """
         if not isinstance(columns, int) or columns < 1:
             raise ValueError(f"Invalid columns: {columns}")
+        if virtual_rows is None:
+            # without virtual rows the base class would build an ordinary one-row labware
+            raise ValueError(f"Invalid virtual_rows: {virtual_rows}")
 
         # Convert lazily scalar-valued parameters to lists
         if column_names is None:
